@@ -343,6 +343,15 @@ func (g *Gen) valueJobs() []Job {
 							one(Int(i), "", 0, "", "number")
 							one(IntStr(i), "", 0, "", "number-as-string")
 						}
+						// the other decimal spellings of a number (leading zeros, .0, an exponent), bare
+						// and quoted, for the values where a reading in another base or through a binary
+						// fraction would show
+						for _, i := range []int64{0, 7, 8, 10, 15, 443, 40056, 65535, -8, -443, 1<<53 + 1, 1<<63 - 1, -1 << 63} {
+							for _, f := range NumForms()[1:] {
+								one(IntForm(i, f, false), "", 0, "", "number/"+f.String())
+								one(IntForm(i, f, true), "", 0, "", "number-as-string/"+f.String())
+							}
+						}
 					case KBool:
 						one(Bool(true), "", 0, "", "true")
 						one(Bool(false), "", 0, "", "false")
